@@ -24,5 +24,5 @@ Print Assumptions C06_vp9_gapless_across_calls.
 Example C06_vp9_example :
   option_map (fun pss => (map pseq (concat pss), map pmarker (concat pss)))
              (enc_many 14 65534 0 [[130; 73; 131; 66; 0; 39; 240; 29; 240; 1; 2; 3]; [134; 9]; [0; 0]])
-  = Some ([65534; 65535; 0; 1], [false; false; true; true]).
+  = Some ([65534; 65535; 0], [false; true; true]).
 Proof. vm_compute. reflexivity. Qed.
